@@ -30,10 +30,14 @@ ASSUMPTIONS = [
 ]
 
 
+QUICK_BUDGET = {"cases": 112, "deadline_s": 110, "case_timeout_s": 150, "floors": {"drains": 150, "convergence_checked": 150, "perturbations": 80, "jobs_executed": 400}}
+THOROUGH_FACTOR = 26  # thorough = the same workload with 26x the cases (floors scale along)
+
+
 def budget(tier):
-    if tier == "thorough":
-        return {"cases": 1500, "deadline_s": 900, "case_timeout_s": 300, "floors": {"drains": 2500, "convergence_checked": 2500, "perturbations": 1500, "jobs_executed": 8000}}
-    return {"cases": 112, "deadline_s": 110, "case_timeout_s": 150, "floors": {"drains": 150, "convergence_checked": 150, "perturbations": 80, "jobs_executed": 400}}
+    from ..core import scaled_budget
+
+    return scaled_budget(QUICK_BUDGET, tier, THOROUGH_FACTOR, noscale=(), case_timeout_s=300)
 
 
 def make_spec(t):
